@@ -118,7 +118,15 @@ def track(prog: Dict[str, Any], seed: int, backward: bool = True, calls: Optiona
     def bmode(mode: str) -> Any:
         return "double" if mode.startswith("dd") else mode.startswith("fb")
 
+    updated = False
     for mode in modes:
+        if mode == "upd":
+            # the weights are rewritten through `.data` between two calls (no autograd version bump)
+            for mod_ in (t, plain):
+                for j, p_ in enumerate(mod_.parameters()):
+                    p_.data.mul_(1.5).add_(0.25 * (j + 1))
+            updated = True
+            continue
         if mode == "inspect":
             # the user looks at the graph between two calls with the COPYING helpers: purely observational
             from unit_scaling.transforms import prune_non_float_tensors, prune_same_scale_tensors
@@ -140,6 +148,10 @@ def track(prog: Dict[str, Any], seed: int, backward: bool = True, calls: Optiona
                 snap[n.name] = (dataclasses.replace(mt.fwd), None if mt.bwd is None else dataclasses.replace(mt.bwd))
         history.append((mode, snap))
     backward = modes[-1].startswith("fb")
+    if updated and not ((prog.get("flag_tail") and not tier_a) or modes[-1].startswith("dd")):
+        for p in plain.parameters():
+            p.grad = None
+        y_plain, g_plain = run_plain(plain, inp, bmode(modes[-1]))
     if (prog.get("flag_tail") and not tier_a) or modes[-1].startswith("dd"):
         # the un-instrumented run of the LAST call's program
         if modes[-1].startswith("dd"):
